@@ -2,4 +2,5 @@ package main
 
 import "golang.org/x/tools/go/ssa"
 
-func (x *Exec) useFloatLemma(fr *Frame, st *State, v *ssa.Convert, shape string, leaves []string, r string) {}
+func (x *Exec) useFloatLemma(fr *Frame, st *State, v *ssa.Convert, shape string, leaves []string, r string) {
+}
